@@ -2,6 +2,8 @@
    Only statements here; every proof is `exact <lemma of Proofs/C08_*.v>`. *)
 From Coq Require Import List ZArith.
 Require Import MTX.Lib.IntWrap MTX.Model.C08_Scalars MTX.Proofs.C08_Dec MTX.Proofs.C08_Codecs MTX.Proofs.C08_Duration.
+Require Import MTX.Model.C08_Schema MTX.Model.C08_ConfCodecs MTX.Proofs.C08_Schema MTX.Proofs.C08_ConfCodecs.
+Require Import MTXGen.C08_ConfSchema MTX.Proofs.C08_ConfInstance.
 Import ListNotations.
 Local Open Scope Z_scope.
 
@@ -61,7 +63,7 @@ Example C08_size_examples :
   size_unmarshal_old (size_marshal_old 123456789) = TBVal 123417395 /\
   size_unmarshal_old (size_marshal_old (2 ^ 53 + 1)) = TBVal (2 ^ 53) /\
   size_marshal_m 1537 = [49; 53; 51; 55; 66] /\ size_marshal_m 1536 = [49; 46; 53; 75] /\
-  size_marshal_m (two64 - 1) = dec (two64 - 1) ++ [66].
+  size_marshal_m (two64 - 1) = C08_Scalars.dec (two64 - 1) ++ [66].
 Proof. exact size_old_witnesses. Qed.
 
 (* ---- enum-like types: every value a decoder can return is written as a text that decodes to it *)
@@ -96,3 +98,64 @@ Example C08_ipnet_example :
   ipnet_unmarshal [49;48;46;49;46;50;46;51;47;49;54] = NVal [10; 1; 0; 0] 16 /\
   ipnet4_wf [10; 1; 2; 3] 16 = false.
 Proof. exact ipnet4_example. Qed.
+
+(* ---- schema-generic theorem: for any codec table, any type of the universe (bool / int kinds / float as
+   an opaque token / string / codec types / slices / pointers / maps / structs with omitempty) whose codecs
+   round-trip, decoding (jsonwrapper: unknown fields rejected, null slices rejected, absent fields zero)
+   what encoding/json wrote gives the value back.  Structural induction on the type. *)
+Theorem C08_schema_roundtrip :
+  forall (codec cval : Type) (cenc : codec -> cval -> json) (cdec : codec -> json -> option cval)
+         (cwf : codec -> cval -> Prop) (czero : codec -> cval) (t : ty codec),
+  ty_ok codec t = true -> codecs_ok codec cval cenc cdec cwf t ->
+  forall v, wf codec cval cwf t v -> dec codec cval cdec czero t (enc codec cval cenc t v) = Some v.
+Proof. exact schema_roundtrip. Qed.
+Print Assumptions C08_schema_roundtrip.
+
+(* ---- instance on coq/gen/C08_ConfSchema.v, regenerated on every run by reflection over the real
+   conf.Conf / conf.Path / optional types.  The codecs are the byte-exact models above; what is NOT
+   modelled enters as hypotheses on oracles: the text form of IPv6 networks, Credential.validate
+   (any predicate), AlwaysAvailableTrack's codec. *)
+Theorem C08_conf_roundtrip :
+  forall (net6 : Type) (net6_print : net6 -> list Z) (net6_parse : list Z -> option net6)
+         (cred_valid : list Z -> bool)
+         (track : Type) (track_enc : track -> json) (track_dec : json -> option track),
+  (forall x, ipnet_unmarshal (net6_print x) = NV6 /\ net6_parse (net6_print x) = Some x) ->
+  (forall x, track_dec (track_enc x) = Some x /\ track_enc x <> JNull) ->
+  forall t, In t [global_ty; path_ty; opt_global_ty; opt_path_ty] ->
+  forall v, wf codec (cval net6 track) (cwf net6 cred_valid track) t v ->
+  dec codec (cval net6 track) (cdec net6 net6_parse cred_valid track track_dec) (czero net6 track) t
+      (enc codec (cval net6 track) (cenc net6 net6_print track track_enc) t v) = Some v.
+Proof. exact conf_roundtrip. Qed.
+Print Assumptions C08_conf_roundtrip.
+
+(* GET then PATCH: what Conf.Global() / a Path encodes, decoded into the optional (all-pointer) view and
+   copied back field by field (copyStructFields), is the configuration one started from *)
+Theorem C08_api_roundtrip :
+  forall (net6 : Type) (net6_print : net6 -> list Z) (net6_parse : list Z -> option net6)
+         (cred_valid : list Z -> bool)
+         (track : Type) (track_enc : track -> json) (track_dec : json -> option track),
+  (forall x, ipnet_unmarshal (net6_print x) = NV6 /\ net6_parse (net6_print x) = Some x) ->
+  (forall x, track_dec (track_enc x) = Some x /\ track_enc x <> JNull) ->
+  forall t t', In (t, t') [(global_ty, opt_global_ty); (path_ty, opt_path_ty)] ->
+  forall vs, wf codec (cval net6 track) (cwf net6 cred_valid track) t (VStruct vs) ->
+  dec codec (cval net6 track) (cdec net6 net6_parse cred_valid track track_dec) (czero net6 track) t'
+      (enc codec (cval net6 track) (cenc net6 net6_print track track_enc) t (VStruct vs))
+    = Some (lift codec (cval net6 track) t (VStruct vs)) /\
+  patch codec (cval net6 track) t (VStruct vs) (lift codec (cval net6 track) t (VStruct vs)) = VStruct vs.
+Proof. exact api_roundtrip. Qed.
+Print Assumptions C08_api_roundtrip.
+
+(* the decode targets built by reflect.StructOf are the optional views of the encoded structs; every
+   type with JSON methods met in the schema has a codec model; pointer fields carry omitempty *)
+Theorem C08_schema_facts :
+  (schema_ok global_ty = true /\ schema_ok path_ty = true /\ schema_ok opt_global_ty = true /\ schema_ok opt_path_ty = true) /\
+  (opt_global_ty = optionalize codec global_ty /\ opt_path_ty = optionalize codec path_ty /\
+   global_ty = TStruct (fields_of global_ty) /\ path_ty = TStruct (fields_of path_ty) /\
+   ptr_omit codec (fields_of global_ty) = true /\ ptr_omit codec (fields_of path_ty) = true).
+Proof. exact (conj schemas_ok optional_views). Qed.
+Print Assumptions C08_schema_facts.
+
+Example C08_schema_nonvacuous :
+  length (fields_of global_ty) = length (fields_of opt_global_ty) /\ length (fields_of path_ty) = length (fields_of opt_path_ty) /\
+  (100 <= length (fields_of global_ty))%nat /\ (100 <= length (fields_of path_ty))%nat.
+Proof. exact schema_sizes. Qed.
